@@ -95,6 +95,10 @@ func (tcFamily) Gen(r *rand.Rand, i int, tier string) *hc.Case {
 				ops = append(ops, tcOp{"firelast", 0}) // resolved to the newest registration when executed
 			}
 		case x < 93:
+			if r.Intn(3) == 0 {
+				ops = append(ops, tcOp{"setafter", 0})
+				break
+			}
 			sleep = hc.Pick(r, int64(0), 3, 10, 50, 500)
 			ops = append(ops, tcOp{"setsleep", sleep})
 		case x < 96:
@@ -113,11 +117,18 @@ func (tcFamily) Exec(c *hc.Case) {
 	type reg struct {
 		d time.Duration
 		f func()
+		t *time.Timer
 	}
 	var regs []reg
+	defer func() {
+		for _, r := range regs {
+			r.t.Stop()
+		}
+	}()
 	tcv.TimeAfterFunc = func(d time.Duration, f func()) *time.Timer {
-		regs = append(regs, reg{d, f})
-		return nil
+		t := hc.LiveTimer() // a timer the library has stopped does not fire
+		regs = append(regs, reg{d, f, t})
+		return t
 	}
 	tcv.SetSleepDuration(time.Duration(p.Sleep))
 	tcv.SetEventCountToAllow(p.Budget)
@@ -187,7 +198,7 @@ func (tcFamily) Exec(c *hc.Case) {
 				c.Ops[i] = hc.Raw(o)
 			}
 			if int(o.T) < len(regs) {
-				regs[o.T].f()
+				hc.FireTimer(regs[o.T].t, regs[o.T].f)
 				if int(o.T) == len(regs)-1 {
 					currentFired = true
 					tags["fire:current"] = true
@@ -195,6 +206,8 @@ func (tcFamily) Exec(c *hc.Case) {
 					tags["fire:stale"] = true
 				}
 			}
+		case "setafter":
+			tcv.SetTimeAfterFunc(tcv.TimeAfterFunc) // swapping the scheduler (here: for itself) changes nothing a caller can see
 		case "setsleep":
 			tcv.SetSleepDuration(time.Duration(o.T))
 		case "setbudget":
@@ -228,6 +241,8 @@ func (tcFamily) Emit(w io.Writer, f *hc.File) {
 				ops = append(ops, fmt.Sprintf("TSleepStart (t0 + %s)", hc.Zi(o.T)))
 			case "fire":
 				ops = append(ops, fmt.Sprintf("TFire %d%%nat", o.T))
+			case "setafter":
+				ops = append(ops, "TFire 1000000%nat") // the model's no-op
 			case "setsleep":
 				ops = append(ops, "TSetSleep "+hc.Zi(o.T))
 			case "setbudget":
